@@ -187,14 +187,17 @@ Definition few_get (f : fewone) (i : nat) : option bool :=
   if fsize f <=? i then None else Some (existsb (Nat.eqb i) (positions f)).
 
 (* ---------- correspondence: bits given as a list of 0/1 (N); queries (op, arg) ----------
-   op 0 rank1, 1 rank0, 2 select1, 3 select0, 4 get, 5 few rank1, 6 few select1, 7 few get;
+   op 0 rank1, 1 rank0, 2 select1, 3 select0, 4 get, 5 few rank1, 6 few select1, 7 few get,
+   8 interleaved-256 rank1, 9 interleaved-256 rank0, 10 interleaved-256 get;
    observation: Z, -1 for None/Err *)
 From Coq Require Import ZArith.
+From ZV.C04 Require Import ModelIL.
 Definition obs (o : option nat) : Z := match o with Some n => Z.of_nat n | None => (-1)%Z end.
 Definition obsb (o : option bool) : Z := match o with Some true => 1 | Some false => 0 | None => (-1) end%Z.
 Definition run_queries (bs : list bool) (sp0 sp1 : bool) (qs : list (N * N)) : list Z :=
   let s := build bs sp0 sp1 in
   let f := few_build bs in
+  let il := il_build bs in
   map (fun '(op, a) =>
     let n := N.to_nat a in
     match op with
@@ -206,6 +209,9 @@ Definition run_queries (bs : list bool) (sp0 sp1 : bool) (qs : list (N * N)) : l
     | 5 => obs (few_rank1 f n)
     | 6 => obs (few_select1 f n)
     | 7 => obsb (few_get f n)
+    | 8 => Z.of_nat (il_rank1 il n)
+    | 9 => Z.of_nat (il_rank0 il n)
+    | 10 => obsb (il_get il n)
     | _ => (-9)%Z
     end%N) qs.
 (* run-length encoded bit strings keep case files small: (bit, count) pairs *)
